@@ -3568,6 +3568,11 @@ void print_list_response(const ephemeralnet::daemon::ControlResponse& response) 
 }  // namespace
 
 int main(int argc, char** argv) {
+#ifndef _WIN32
+    // A peer or control client that disconnects before a reply is written must surface as a
+    // failed send(), not as a SIGPIPE that ends the process.
+    std::signal(SIGPIPE, SIG_IGN);
+#endif
     try {
         std::vector<std::string_view> args;
         args.reserve(static_cast<std::size_t>(argc));
